@@ -21,6 +21,40 @@ FS_EFFECT = re.compile(
     r'std::os::unix::fs::|tempfile::|camino::Utf8Path::(?!.*\b(join|parent|with_file_name|components|file_name|as_str|is_dir|is_file|exists|read_dir_utf8|canonicalize_utf8|canonicalize|as_std_path|extension|file_stem|starts_with|ends_with|to_path_buf|new|strip_prefix|is_absolute|is_relative|has_root|iter|ancestors|metadata|symlink_metadata|read_link|read_link_utf8|try_exists|with_extension|to_owned|as_os_str|display|eq|cmp|hash|fmt|borrow|as_ref|deref|from)\b))')
 
 
+def output_write_calls(B, fn):
+    """Calls inside fn that write an output file: with_output_file itself, or a function of the bin crate from which it is reached."""
+    memo = {}
+
+    def reaches(f, depth=0):
+        if f is None or f.get('body') is None or depth > 6:
+            return False
+        if f['path'] in memo:
+            return memo[f['path']]
+        memo[f['path']] = False
+        r = False
+        for c in H.calls_in(f['body']):
+            if H.is_call_to(c, 'with_output_file'):
+                r = True
+                break
+            t = H.callee(c) or H.callee_decl(c)
+            g = B.fn(t) if t else None
+            if g is not None and g is not f and reaches(g, depth + 1):
+                r = True
+                break
+        memo[f['path']] = r
+        return r
+    out = []
+    for c in H.calls_in(fn['body']):
+        if H.is_call_to(c, 'with_output_file'):
+            out.append(c)
+            continue
+        t = H.callee(c) or H.callee_decl(c)
+        g = B.fn(t) if t else None
+        if g is not None and g is not fn and reaches(g):
+            out.append(c)
+    return out
+
+
 def run(ck):
     F = ck.facts
     B = F.bin
@@ -174,52 +208,199 @@ def run(ck):
         ck.ob('R15.3', 'persist-is-last-effect', not [x for x in later if x not in ('Ok',)], B.loc(persist), 'calls after persist: %s' % later)
 
     # ---- R15.4 / R15.5 in generate_ui_file ------------------------------------
-    writes = [c for c in H.calls_in(guf['body']) if H.is_call_to(c, 'with_output_file')]
-    ck.floor('R15.4', len(writes), 2, 'with_output_file calls in generate_ui_file')
-    pm = H.parents(guf)
-    roles = {}
-    for i, w in enumerate(writes):
-        path_arg = w['args'][0]
-        path_root = H.root_local(path_arg)
-        # buffer written by the closure
+    # a write site is a call of with_output_file in generate_ui_file, or a call of a helper of the bin crate that holds exactly
+    # one with_output_file call on its own path and buffer parameters (the refactored form of the same thing)
+    def wof_parts(f, w):
+        """(path root, buffer root) of a with_output_file call inside f."""
         clos = next((a for a in w['args'] if a.get('k') == 'Closure'), None)
-        buf_root = None
+        b_root = None
         if clos is not None:
             for c in H.calls_in(clos['body']):
                 if c.get('m') == 'write_all' and c['args']:
-                    buf_root = H.root_local(c['args'][0])
+                    b_root = H.root_local(c['args'][0])
+        return H.root_local(w['args'][0]), b_root
+
+    sites = []
+    for c in H.calls_in(guf['body']):
+        if H.is_call_to(c, 'with_output_file'):
+            pr, br = wof_parts(guf, c)
+            sites.append({'call': c, 'wfn': guf, 'w': c, 'path_arg': c['args'][0], 'path_root': pr, 'buf_root': br, 'wpath': pr, 'wbuf': br, 'region': None})
+            continue
+        tgt = H.callee(c) or H.callee_decl(c)
+        hf = B.fn(tgt) if tgt else None
+        if hf is None or hf is guf or hf is wof or hf.get('body') is None:
+            continue
+        ws = [x for x in H.calls_in(hf['body']) if H.is_call_to(x, 'with_output_file')]
+        if not ws:
+            continue
+        if len(ws) != 1:
+            ck.ob('R15.4', 'helper-form|%s' % hf['name'], False, B.loc(c), 'helper %s holds %d with_output_file calls: form not understood' % (hf['name'], len(ws)))
+            continue
+        ck.analysed('bin::' + hf['path'])
+        wp, wb = wof_parts(hf, ws[0])
+        bsh = H.binding_sites(hf)
+        pi = bsh.get((wp or {}).get('hid'), {})
+        bi = bsh.get((wb or {}).get('hid'), {})
+        if pi.get('kind') != 'param' or bi.get('kind') != 'param' or pi['index'] >= len(c['args']) or bi['index'] >= len(c['args']):
+            ck.ob('R15.4', 'helper-form|%s' % hf['name'], False, B.loc(c), 'helper %s does not write its own path/buffer parameters: form not understood' % hf['name'])
+            continue
+        sites.append({'call': c, 'wfn': hf, 'w': ws[0], 'path_arg': c['args'][pi['index']], 'path_root': H.root_local(c['args'][pi['index']]),
+                      'buf_root': H.root_local(c['args'][bi['index']]), 'wpath': wp, 'wbuf': wb, 'region': hf['body']})
+    writes = [s_['call'] for s_ in sites]
+    ck.floor('R15.4', len(writes), 2, 'output write sites in generate_ui_file')
+    pm = H.parents(guf)
+    roles = {}
+
+    def peel_b(x):
+        while x.get('k') in ('Paren', 'DropTemps') or (x.get('k') == 'Block' and not x.get('stmts') and 'e' in x):
+            x = x['e']
+        return x
+
+    def local_init(f, x):
+        if x.get('k') == 'Path' and x.get('res') == 'local':
+            b = H.binding_sites(f).get(x.get('hid'))
+            if b and b['kind'] == 'let' and b['pat'].get('k') == 'Bind' and b['node'].get('init') is not None and \
+                    not any(n.get('k') in ('Assign', 'AssignOp') and n['l'].get('k') == 'Path' and n['l'].get('hid') == x.get('hid') for n in walk(f['body'])):
+                return b['node']['init']
+        return None
+
+    def is_E(f, x, ph, bh):
+        """x is `the file at the written path exists and its bytes equal the buffer`: fs::read(path) compared with == against the
+        buffer, false when the read fails."""
+        x = peel_b(x)
+        if x.get('k') not in ('Call', 'MCall', 'Match'):
+            return False
+        reads = [r for r in H.calls_in(x) if (H.callee_decl(r) or '') == 'std::fs::read']
+        if not reads or not all(H.root_local(r['args'][0]) is not None and H.root_local(r['args'][0]).get('hid') == ph for r in reads):
+            return False
+        cparams = {b['hid'] for cl in walk(x) if cl.get('k') == 'Closure' for p_ in cl['params'] for b in H.pat_bindings(p_)}
+        cparams |= {b['hid'] for a in walk(x) if a.get('k') == 'Arm' for b in H.pat_bindings(a['pat'])}
+        cmp_ok = False
+        def whole(sd):
+            # the value itself (through references and slice views), not something computed from it such as its length
+            sd = H.strip_refs(sd)
+            while sd.get('k') == 'MCall' and sd.get('m') in ('as_slice', 'as_ref', 'deref', 'as_bytes', 'borrow', 'as_deref') and not sd['args']:
+                sd = H.strip_refs(sd['recv'])
+            while sd.get('k') == 'Index' and H.strip_refs(sd.get('i', {})).get('k') == 'Struct' and 'RangeFull' in (H.strip_refs(sd['i']).get('def') or ''):
+                sd = H.strip_refs(sd['e'])
+            return sd.get('hid') if sd.get('k') == 'Path' and sd.get('res') == 'local' else None
+        for bn in walk(x):
+            if bn.get('k') == 'Binary' and bn.get('op') == 'Eq':
+                hids = {whole(sd) for sd in (bn['l'], bn['r'])}
+                if None not in hids and bh in hids and hids & cparams:
+                    cmp_ok = True
+        dflt = any((c.get('m') == 'unwrap_or' and c['args'] and H.lit_value(c['args'][0]) is False) or c.get('m') in ('is_ok_and', 'is_some_and') or
+                   (c.get('m') == 'map_or' and c['args'] and H.lit_value(c['args'][0]) is False) for c in H.calls_in(x))
+        neg = any(n.get('k') == 'Unary' and n.get('op') == 'Not' for n in walk(x)) or any(n.get('k') == 'Binary' and n.get('op') in ('Ne', 'Or') for n in walk(x))
+        return cmp_ok and dflt and not neg
+
+    def is_len_E(f, x, ph, bh):
+        """x is `a file exists at the written path and has the length of the buffer` (follows from equal content, not the converse)."""
+        x = peel_b(x)
+        if x.get('k') not in ('Call', 'MCall'):
+            return False
+        md = [r for r in H.calls_in(x) if (H.callee_decl(r) or '') in ('std::fs::metadata', 'std::fs::symlink_metadata')]
+        if not md or not all(H.root_local(r['args'][0]) is not None and H.root_local(r['args'][0]).get('hid') == ph for r in md):
+            return False
+        cparams = {b['hid'] for cl in walk(x) if cl.get('k') == 'Closure' for p_ in cl['params'] for b in H.pat_bindings(p_)}
+        cmp_ok = False
+        for bn in walk(x):
+            if bn.get('k') == 'Binary' and bn.get('op') == 'Eq':
+                sides = []
+                for sd in (bn['l'], bn['r']):
+                    sd = sd['e'] if sd.get('k') == 'Cast' else sd
+                    sides.append(((H.root_local(sd) or {}).get('hid'), sd.get('k') == 'MCall' and sd.get('m') == 'len'))
+                if all(is_len for _, is_len in sides) and {h for h, _ in sides} & {bh} and {h for h, _ in sides} & cparams:
+                    cmp_ok = True
+        dflt = any((c.get('m') == 'unwrap_or' and c['args'] and H.lit_value(c['args'][0]) is False) or c.get('m') in ('is_ok_and', 'is_some_and') or
+                   (c.get('m') == 'map_or' and c['args'] and H.lit_value(c['args'][0]) is False) for c in H.calls_in(x))
+        neg = any(n.get('k') == 'Unary' and n.get('op') == 'Not' for n in walk(x)) or any(n.get('k') == 'Binary' and n.get('op') in ('Ne', 'Or', 'And') for n in walk(x))
+        return cmp_ok and dflt and not neg
+
+    def implies_E(f, x, ph, bh, d=0):
+        """x true => content equal."""
+        x = peel_b(x)
+        if d > 8:
+            return False
+        if x.get('k') == 'Binary' and x.get('op') == 'And':
+            return implies_E(f, x['l'], ph, bh, d + 1) or implies_E(f, x['r'], ph, bh, d + 1)
+        if x.get('k') == 'Binary' and x.get('op') == 'Or':
+            return implies_E(f, x['l'], ph, bh, d + 1) and implies_E(f, x['r'], ph, bh, d + 1)
+        li = local_init(f, x)
+        if li is not None:
+            return implies_E(f, li, ph, bh, d + 1)
+        return is_E(f, x, ph, bh)
+
+    def implied_by_E(f, x, ph, bh, d=0):
+        """content equal => x true."""
+        x = peel_b(x)
+        if d > 8:
+            return False
+        if x.get('k') == 'Binary' and x.get('op') == 'Or':
+            return implied_by_E(f, x['l'], ph, bh, d + 1) or implied_by_E(f, x['r'], ph, bh, d + 1)
+        if x.get('k') == 'Binary' and x.get('op') == 'And':
+            return implied_by_E(f, x['l'], ph, bh, d + 1) and implied_by_E(f, x['r'], ph, bh, d + 1)
+        li = local_init(f, x)
+        if li is not None:
+            return implied_by_E(f, li, ph, bh, d + 1)
+        return is_E(f, x, ph, bh) or is_len_E(f, x, ph, bh)
+
+    def neg_of(x):
+        x = peel_b(x)
+        if x.get('k') == 'Unary' and x.get('op') == 'Not':
+            return peel_b(x['e'])
+        return None
+
+    for i, st_ in enumerate(sites):
+        w = st_['call']
+        path_arg = st_['path_arg']
+        path_root = st_['path_root']
+        buf_root = st_['buf_root']
         pname = (path_root or {}).get('name', '?')
         bname = (buf_root or {}).get('name', '?')
         key = 'write|%s' % pname
-        # guard
-        guard_if = None
-        for anc in H.ancestors(guf, w):
-            if anc.get('k') == 'If' and any(x is w for x in walk(anc['then'])):
-                guard_if = anc
-                break
-        ok = False
-        why = 'no enclosing if'
-        if guard_if is not None:
-            c = guard_if['c']
-            if c.get('k') == 'Unary' and c.get('op') == 'Not':
-                inner = c['e']
-                reads = [x for x in H.calls_in(inner) if (H.callee_decl(x) or '') == 'std::fs::read']
-                cmp_ok = False
-                for cl in (x for x in walk(inner) if x.get('k') == 'Closure'):
-                    for bn in walk(cl['body']):
-                        if bn.get('k') == 'Binary' and bn.get('op') == 'Eq':
-                            sides = [H.root_local(bn['l']), H.root_local(bn['r'])]
-                            hids = {s.get('hid') for s in sides if s is not None}
-                            params = {b['hid'] for p in cl['params'] for b in H.pat_bindings(p)}
-                            if buf_root is not None and buf_root.get('hid') in hids and hids & params:
-                                cmp_ok = True
-                read_same = any(H.root_local(r['args'][0]) is not None and path_root is not None and H.root_local(r['args'][0]).get('hid') == path_root.get('hid') for r in reads)
-                dflt = [x for x in H.calls_in(inner) if x.get('m') == 'unwrap_or' and x['args'] and H.lit_value(x['args'][0]) is False]
-                ok = bool(reads) and read_same and cmp_ok and bool(dflt)
-                why = 'guard !(fs::read(%s).map(|d| d == %s).unwrap_or(false)): read-same-path=%s compare-same-buffer=%s default-false=%s' % (pname, bname, read_same, cmp_ok, bool(dflt))
+        wfn, ww = st_['wfn'], st_['w']
+        ph, bh = (st_['wpath'] or {}).get('hid'), (st_['wbuf'] or {}).get('hid')
+        region = st_['region']
+        if region is None:
+            # direct form: the chain of boolean ifs wrapped around the call
+            region = ww
+            for anc in H.ancestors(wfn, ww):
+                if anc.get('k') == 'If' and anc['c'].get('k') != 'LetCond':
+                    region = anc
+                elif anc.get('k') in ('If', 'Match', 'For', 'Loop', 'Closure'):
+                    break
+        skip_bad, write_bad, n_skip, n_write = [], [], 0, 0
+        for ctx, evs, ex in H.paths(region, lambda n: 'W' if n is ww else None):
+            def decided(pred_then, pred_else):
+                for lab, node in ctx:
+                    if node.get('k') != 'If' or node['c'].get('k') == 'LetCond':
+                        continue
+                    c_ = node['c']
+                    n_ = neg_of(c_)
+                    if lab == 'then' and (pred_then(c_) if n_ is None else pred_else(n_)):
+                        return True
+                    if lab == 'else' and (pred_else(c_) if n_ is None else pred_then(n_)):
+                        return True
+                return False
+            if 'W' in evs:
+                n_write += 1
+                # content equal => this path is not taken: some decision on it is false whenever the content is equal
+                if not decided(lambda c_: False, lambda c_: implied_by_E(wfn, c_, ph, bh)):
+                    write_bad.append(H.describe_ctx(ctx) or '<unconditional>')
             else:
-                why = 'guard is not a negated comparison: ' + pp(c, maxlen=80)
-        ck.ob('R15.4', key + '|guarded-by-compare', ok, B.loc(w), why)
+                n_skip += 1
+                # this path leaves the old file in place: some decision on it holds only when the content is equal
+                if not decided(lambda c_: implies_E(wfn, c_, ph, bh), lambda c_: False):
+                    skip_bad.append(H.describe_ctx(ctx) or '<unconditional>')
+        ok_skip = n_write >= 1 and not skip_bad
+        ck.ob('R15.4', key + '|skipped-only-if-same-bytes', ok_skip, B.loc(ww),
+              '%d path(s) leave the existing file in place, each under a test that holds only if fs::read(%s) == %s' % (n_skip, pname, bname) if ok_skip else
+              'the existing file is kept on a path where its bytes need not equal the new output (a stale %s survives the run): %s' % (pname, skip_bad or 'no writing path'))
+        ok_wr = n_write >= 1 and n_skip >= 1 and not write_bad
+        ck.ob('R15.4', key + '|guarded-by-compare', ok_wr, B.loc(ww),
+              '%d writing path(s), each excluded when fs::read(%s) == %s (unchanged output is left untouched)' % (n_write, pname, bname) if ok_wr else
+              'the file is rewritten on a path that is also taken when its bytes already equal the output: %s' % (write_bad or 'no skipping path'))
         # R15.5 provenance of the path and of the buffer
         por = H.origin_callees(guf, path_arg, through=('join', 'with_file_name'))
         bor = set()
